@@ -112,6 +112,7 @@ func Load(dir, tier string) (*Prog, error) {
 			for name, b := range overlay {
 				_ = os.WriteFile(d+"/"+strings.ReplaceAll(strings.TrimPrefix(name, dir), "/", "_"), b, 0o644)
 			}
+			_ = os.WriteFile(d+"/_normlog.txt", []byte(strings.Join(lg, "\n")+"\n"), 0o644) // [std] the normalisation log next to the dump
 		}
 		if len(overlay) > 0 {
 			// go/packages type-checks every dependency from source as soon as an overlay is given; the
